@@ -17,8 +17,14 @@
 (* that wrongly goes on does, e.g. "rejected document, then 404 everywhere"    *)
 (* = a server whose metadata failed validation, not a server without metadata).*)
 (*                                                                            *)
-(* URLs are abstracted to classes: "https", "lo" (http on a loopback host),   *)
-(* "http" (http on any other host), "js"/"data"/"vbs" (script-capable).       *)
+(* URLs are abstracted to classes with three dimensions (URLClasses below):   *)
+(* scheme class (https, http, script-capable js/data/vbs) x authority class   *)
+(* (loopback host, other host, no authority) x form (hierarchical             *)
+(* scheme://authority/..., opaque scheme:...).  The two checks of the code    *)
+(* look at different dimensions (checkURLScheme: the scheme; checkHTTPSOr-    *)
+(* Loopback: scheme https OR a loopback authority under ANY scheme), so a     *)
+(* script-capable scheme in hierarchical form with a loopback authority       *)
+(* (javascript://localhost/%0A...) passes the second check alone.             *)
 (* Documents are named variants; PRMFacts/ASMFacts give the facts the code    *)
 (* and the property look at.  The same fact records are computed by the Go    *)
 (* harness from the concrete documents it serves, and the property predicates *)
@@ -29,8 +35,34 @@ EXTENDS Integers, Sequences, FiniteSets, TLC
 -----------------------------------------------------------------------------
 \* Property predicates (shared with the monitor)
 
-Safe(c) == c \in {"https", "lo"}
-Script(c) == c \in {"js", "data", "vbs"}
+\* URL classes: scheme class x authority class x form
+ScriptSchemes == {"js", "data", "vbs"}          \* javascript:, data:, vbscript:
+Schemes == {"https", "http"} \cup ScriptSchemes
+Authorities == {"lo", "rem", "none"}            \* loopback host / any other host / no authority component
+Forms == {"hier", "opaque"}                     \* scheme://authority/path  /  scheme:rest
+U(s, a, f) == [sch |-> s, auth |-> a, form |-> f]
+\* an authority exists exactly in the hierarchical form; http(s) URLs are hierarchical
+URLClasses == {c \in [sch : Schemes, auth : Authorities, form : Forms] :
+                 /\ (c.form = "opaque") <=> (c.auth = "none")
+                 /\ (c.sch \in {"https", "http"} => c.form = "hier")}
+NoURL == U("-", "-", "-")                        \* the field / parameter is absent
+Https == U("https", "rem", "hier")
+Lo == U("http", "lo", "hier")                    \* http://localhost:..., http://127.0.0.1/..., http://[::1]/...
+Http == U("http", "rem", "hier")
+Js == U("js", "none", "opaque")                  \* javascript:alert(1)
+Data == U("data", "none", "opaque")
+Vbs == U("vbs", "none", "opaque")
+JsLo == U("js", "lo", "hier")                    \* javascript://localhost/%0Aalert(1), data://127.0.0.1/..., vbscript://[::1]/...
+JsRem == U("js", "rem", "hier")                  \* javascript://evil.example/%0Aalert(1)
+
+Script(c) == c.sch \in ScriptSchemes
+\* "an https or loopback URL": https, or a loopback authority under a scheme that is not script-capable
+\* (a URL with a script-capable scheme is never a safe request target, whatever its authority)
+Safe(c) == ~Script(c) /\ (c.sch = "https" \/ c.auth = "lo")
+
+\* the two checks of the code (oauthex/oauth2.go); an absent URL passes both
+CodeSchemeOK(c) == ~Script(c)                                           \* checkURLScheme: deny-list javascript/data/vbscript
+CodeHttpsOrLo(c) == c = NoURL \/ c.sch = "https" \/ c.auth = "lo"       \* checkHTTPSOrLoopback: !IsLoopback(host) && scheme != "https" fails
 
 ReqSafe(r) == Safe(r.cls)
 \* Relation of an issuer identifier (the `issuer` of a metadata document, PreregisteredClient.Issuer,
@@ -42,7 +74,7 @@ ReqSafe(r) == Safe(r.cls)
 \*             issuer" either: the property is not taken to forbid or to demand their acceptance.
 \*   IssNear   near misses, each of which names a DIFFERENT authorization server / identifier:
 \*     port      same scheme/host/path, another (or no / an added non-default) port  -- another origin
-\*     scheme    http <-> https on the same authority                               -- another origin
+\*     scheme    http <-> https, or a script-capable scheme, on the same authority  -- another origin
 \*     userinfo  scheme://user@host...                  -- not the identifier asked for
 \*     query     identifier?x=1  (RFC 8414 2: an issuer has no query component)
 \*     fragment  identifier#x    (RFC 8414 2: ... nor a fragment)
@@ -75,15 +107,25 @@ PreOK(rel) == rel = "unset" \/ IssMatch(rel)
 -----------------------------------------------------------------------------
 \* Environment: variant sets (a .cfg may override any of them with `<-`)
 
-Challenges == {"none", "bearer", "hdr_https", "hdr_other", "hdr_multi", "hdr_lo", "hdr_http", "hdr_js",
-               "scope403", "other403", "malformed"}
+\* "hdr_jsrem" / "hdr_jslo": resource_metadata is a script-capable scheme in hierarchical form with a
+\* non-loopback / loopback authority
+ChallengesCore == {"none", "bearer", "hdr_https", "hdr_other", "hdr_multi", "hdr_lo", "hdr_http", "hdr_js", "hdr_jsrem",
+                   "scope403", "other403", "malformed"}
+\* lead challenges: variants for which the code-shaped model is expected to violate an invariant.
+\* "hdr_jslo": GetProtectedResourceMetadata checks the metadata URL with checkHTTPSOrLoopback only, which a
+\* loopback authority satisfies under any scheme: the URL is requested through the client (OnlySafeURLs)
+ChallengeLeads == {"hdr_jslo"}
+Challenges == ChallengesCore \cup ChallengeLeads
 McpURLs == {"https", "lo", "http"}
+McpCls(m) == CASE m = "https" -> Https [] m = "lo" -> Lo [] m = "http" -> Http
 
 PRMHttpFail == {"404", "500", "neterr", "badct", "badjson"}
-\* "field_js": a script-capable scheme in a URL field other than authorization_servers
+\* "field_js*": a script-capable scheme in a URL field other than authorization_servers
 \* (jwks_uri, resource_documentation, resource_policy_uri, resource_tos_uri)
+\* suffixes: _http = Http, _js / _data = opaque script, _jslo = JsLo, _jsrem = JsRem
 PRMDocsCore == {"good", "good_lo", "good_path", "good2", "res_other", "res_slash", "res_sub",
-                "as_http", "as_js", "as_data", "as2_http", "as2_js", "no_as", "field_js"}
+                "as_http", "as_js", "as_data", "as_jslo", "as_jsrem", "as2_http", "as2_js", "as2_jslo", "no_as",
+                "field_js", "field_jslo", "field_jsrem"}
 \* lead documents: variants for which the code-shaped model is expected to violate an invariant
 \* (none at present: "field_js" was one until /repo 7fe7bee made GetProtectedResourceMetadata
 \* check every URL field)
@@ -97,9 +139,23 @@ ASMFlagDocs == {"good", "good_lo", "iss_slash"}          \* the three flags vary
 \* documents whose `issuer` is a near miss of / equivalent to the URL asked for ("iss_" \o relation)
 ASMIssDocs == {"iss_port", "iss_scheme", "iss_userinfo", "iss_query", "iss_fragment", "iss_hostsfx",
                "iss_prefix", "iss_case", "iss_dot"}
-ASMDocs == ASMFlagDocs \cup {"pkce_plain", "rev_http", "iss_other", "iss_sub", "no_pkce",
-            "auth_http", "auth_js", "auth_data", "tok_http", "tok_js", "reg_http", "reg_js",
-            "intro_http", "intro_js", "jwks_js", "doc_js", "rev_js"} \cup ASMIssDocs
+\* documents that are valid but for the class of ONE URL field: <<field, class>>.  Fields: auth(orization_endpoint),
+\* tok(en_endpoint), reg(istration_endpoint), intro(spection_endpoint) -- the four the code also checks with
+\* checkHTTPSOrLoopback -- and `other` (jwks_uri [jwks_], service_documentation / op_policy_uri / op_tos_uri [doc_],
+\* revocation_endpoint [rev_]), which only get checkURLScheme.  Every field takes the non-loopback http class and the
+\* script-capable scheme in its three shapes: opaque, hierarchical with a loopback authority, hierarchical with another one.
+ASMFieldVar ==
+  [auth_http  |-> <<"auth", Http>>,  auth_js  |-> <<"auth", Js>>,  auth_data |-> <<"auth", Data>>,
+   auth_jslo  |-> <<"auth", JsLo>>,  auth_jsrem  |-> <<"auth", JsRem>>,
+   tok_http   |-> <<"tok", Http>>,   tok_js   |-> <<"tok", Js>>,   tok_jslo   |-> <<"tok", JsLo>>,   tok_jsrem   |-> <<"tok", JsRem>>,
+   reg_http   |-> <<"reg", Http>>,   reg_js   |-> <<"reg", Js>>,   reg_jslo   |-> <<"reg", JsLo>>,   reg_jsrem   |-> <<"reg", JsRem>>,
+   intro_http |-> <<"intro", Http>>, intro_js |-> <<"intro", Js>>, intro_jslo |-> <<"intro", JsLo>>, intro_jsrem |-> <<"intro", JsRem>>,
+   rev_http   |-> <<"other", Http>>,
+   jwks_js    |-> <<"other", Js>>,   doc_js   |-> <<"other", Js>>,   rev_js     |-> <<"other", Js>>,
+   jwks_jslo  |-> <<"other", JsLo>>, doc_jslo |-> <<"other", JsLo>>, rev_jslo   |-> <<"other", JsLo>>,
+   jwks_jsrem |-> <<"other", JsRem>>]
+ASMFieldDocs == DOMAIN ASMFieldVar
+ASMDocs == ASMFlagDocs \cup {"pkce_plain", "iss_other", "iss_sub", "no_pkce"} \cup ASMFieldDocs \cup ASMIssDocs
 ASMOutcomes == ASM4xx \cup ASMHttpFail \cup ASMDocs
 \* what the well-known locations AFTER a fatal one hold ready (never read by the code as specified):
 \* "not there" in both 4xx flavours, or a valid document
@@ -108,54 +164,68 @@ ASMRest == ASM4xx \cup {"good"}
 \* FALSE (OAuthFlow_wit.cfg only): discovery goes on to the next location and forgets the rejection; the
 \* design invariants must then fail (NoFallbackAfterRejected), which shows that they are not vacuous.
 ASMFatalStops == TRUE
+\* the fields of authorization-server metadata on which checkURLScheme runs: all of them in the code as specified.
+\* OAuthFlow_wit2.cfg leaves out the four that checkHTTPSOrLoopback looks at as well ("the stronger check covers them"):
+\* NoScriptSchemes must then fail (a script-capable scheme with a loopback authority passes checkHTTPSOrLoopback),
+\* which shows that the two checks are not redundant and that the JsLo class is what tells them apart.
+ASMSchemeChecked == {"auth", "tok", "reg", "intro", "other"}
 RegFlags == {"none", "ep"}
 
 RegConfigs == {"cimd", "pre", "dcr", "cimd_pre", "cimd_dcr", "pre_dcr", "all"}
 \* ("hostonly" is the "prefix" relation when the authorization server has a path, "exact" otherwise)
 PreRels == {"unset", "exact", "slash", "hostonly", "other", "sub",
             "port", "scheme", "userinfo", "query", "fragment", "hostsfx", "case", "dot"}
-DCROutcomes == {"201", "200", "400", "500", "noid", "js_uri", "neterr", "badjson"}
+\* "js_uri" / "jslo_uri": a URL field of the registration response has a script-capable scheme (opaque / JsLo)
+DCROutcomes == {"201", "200", "400", "500", "noid", "js_uri", "jslo_uri", "neterr", "badjson"}
 AuthStates == {"equal", "different", "empty", "lower", "prefix"}
 AuthIsses == {"absent", "equal", "different", "slash",
               "port", "scheme", "userinfo", "query", "fragment", "hostsfx", "case", "dot"}
 TokenOutcomes == {"good", "expiring", "400", "500", "noat", "neterr"}
 
-\* class of the resource_metadata URL in the challenge ("none": no such parameter)
-ChHdr(c) == CASE c \in {"hdr_https", "hdr_other", "hdr_multi", "scope403"} -> "https"
-              [] c = "hdr_lo" -> "lo"
-              [] c = "hdr_http" -> "http"
-              [] c = "hdr_js" -> "js"
-              [] OTHER -> "none"
+\* class of the resource_metadata URL in the challenge (NoURL: no such parameter)
+ChHdr(c) == CASE c \in {"hdr_https", "hdr_other", "hdr_multi", "scope403"} -> Https
+              [] c = "hdr_lo" -> Lo
+              [] c = "hdr_http" -> Http
+              [] c = "hdr_js" -> Js
+              [] c = "hdr_jslo" -> JsLo
+              [] c = "hdr_jsrem" -> JsRem
+              [] OTHER -> NoURL
 
 \* facts of a protected-resource metadata document
 PRMFacts(o) ==
-  LET b == [res |-> "exact", as |-> <<"https">>, path |-> FALSE, other |-> "none"] IN
+  LET b == [res |-> "exact", as |-> <<Https>>, path |-> FALSE, other |-> NoURL] IN
   CASE o = "good"      -> b
-    [] o = "good_lo"   -> [b EXCEPT !.as = <<"lo">>]
+    [] o = "good_lo"   -> [b EXCEPT !.as = <<Lo>>]
     [] o = "good_path" -> [b EXCEPT !.path = TRUE]
-    [] o = "good2"     -> [b EXCEPT !.as = <<"https", "https">>]
+    [] o = "good2"     -> [b EXCEPT !.as = <<Https, Https>>]
     [] o = "res_other" -> [b EXCEPT !.res = "other"]
     [] o = "res_slash" -> [b EXCEPT !.res = "slash"]
     [] o = "res_sub"   -> [b EXCEPT !.res = "sub"]
-    [] o = "as_http"   -> [b EXCEPT !.as = <<"http">>]
-    [] o = "as_js"     -> [b EXCEPT !.as = <<"js">>]
-    [] o = "as_data"   -> [b EXCEPT !.as = <<"data">>]
-    [] o = "as2_http"  -> [b EXCEPT !.as = <<"https", "http">>]
-    [] o = "as2_js"    -> [b EXCEPT !.as = <<"https", "js">>]
+    [] o = "as_http"   -> [b EXCEPT !.as = <<Http>>]
+    [] o = "as_js"     -> [b EXCEPT !.as = <<Js>>]
+    [] o = "as_data"   -> [b EXCEPT !.as = <<Data>>]
+    [] o = "as_jslo"   -> [b EXCEPT !.as = <<JsLo>>]
+    [] o = "as_jsrem"  -> [b EXCEPT !.as = <<JsRem>>]
+    [] o = "as2_http"  -> [b EXCEPT !.as = <<Https, Http>>]
+    [] o = "as2_js"    -> [b EXCEPT !.as = <<Https, Js>>]
+    [] o = "as2_jslo"  -> [b EXCEPT !.as = <<Https, JsLo>>]
     [] o = "no_as"     -> [b EXCEPT !.as = <<>>]
-    [] o = "field_js"  -> [b EXCEPT !.other = "js"]
+    [] o = "field_js"  -> [b EXCEPT !.other = Js]
+    [] o = "field_jslo"  -> [b EXCEPT !.other = JsLo]
+    [] o = "field_jsrem" -> [b EXCEPT !.other = JsRem]
 
 \* facts of an authorization-server metadata document.  ip: authorization_response_iss_parameter_supported,
 \* cimd: client_id_metadata_document_supported, rg: "ep" = a registration endpoint is present.
 \* `other`: jwks_uri, service_documentation, op_policy_uri, op_tos_uri, revocation_endpoint (never https-checked)
+\* auth, tok, reg, intro, other are URL classes (NoURL: the field is absent)
 ASMFacts(o, ip, cimd, rg) ==
-  LET b == [iss |-> "exact", pkce |-> TRUE, ip |-> ip, cimd |-> cimd, auth |-> "https", tok |-> "https",
-            reg |-> (IF rg = "ep" THEN "https" ELSE "none"), intro |-> "none", other |-> "none"] IN
-  CASE o = "good"       -> b
-    [] o = "good_lo"    -> [b EXCEPT !.auth = "lo", !.tok = "lo", !.reg = (IF rg = "ep" THEN "lo" ELSE "none")]
+  LET b == [iss |-> "exact", pkce |-> TRUE, ip |-> ip, cimd |-> cimd, auth |-> Https, tok |-> Https,
+            reg |-> (IF rg = "ep" THEN Https ELSE NoURL), intro |-> NoURL, other |-> NoURL] IN
+  CASE o \in ASMFieldDocs -> [b EXCEPT ![ASMFieldVar[o][1]] = ASMFieldVar[o][2]]
+    [] o = "good"       -> b
+    [] o = "good_lo"    -> [b EXCEPT !.auth = Lo, !.tok = Lo, !.reg = (IF rg = "ep" THEN Lo ELSE NoURL)]
     [] o = "iss_slash"  -> [b EXCEPT !.iss = "slash"]
     [] o = "pkce_plain" -> b
-    [] o = "rev_http"   -> [b EXCEPT !.other = "http"]
     [] o = "iss_other"  -> [b EXCEPT !.iss = "other"]
     [] o = "iss_sub"    -> [b EXCEPT !.iss = "sub"]
     [] o = "iss_port"     -> [b EXCEPT !.iss = "port"]
@@ -168,16 +238,6 @@ ASMFacts(o, ip, cimd, rg) ==
     [] o = "iss_case"     -> [b EXCEPT !.iss = "case"]
     [] o = "iss_dot"      -> [b EXCEPT !.iss = "dot"]
     [] o = "no_pkce"    -> [b EXCEPT !.pkce = FALSE]
-    [] o = "auth_http"  -> [b EXCEPT !.auth = "http"]
-    [] o = "auth_js"    -> [b EXCEPT !.auth = "js"]
-    [] o = "auth_data"  -> [b EXCEPT !.auth = "data"]
-    [] o = "tok_http"   -> [b EXCEPT !.tok = "http"]
-    [] o = "tok_js"     -> [b EXCEPT !.tok = "js"]
-    [] o = "reg_http"   -> [b EXCEPT !.reg = "http"]
-    [] o = "reg_js"     -> [b EXCEPT !.reg = "js"]
-    [] o = "intro_http" -> [b EXCEPT !.intro = "http"]
-    [] o = "intro_js"   -> [b EXCEPT !.intro = "js"]
-    [] o \in {"jwks_js", "doc_js", "rev_js"} -> [b EXCEPT !.other = "js"]
 
 PRMScript(f) == (\E i \in DOMAIN f.as : Script(f.as[i])) \/ Script(f.other)
 ASMScript(f) == \E c \in {f.auth, f.tok, f.reg, f.intro, f.other} : Script(c)
@@ -208,8 +268,8 @@ vars == <<pc, ch, mcp, plist, idx, srv, asm, client, pre, ares, tokq, result, ts
 
 Aux == <<cause, served, predef>>
 
-NoAS == [cls |-> "-", path |-> FALSE]
-NoASM == [mode |-> "-", ip |-> FALSE, cimd |-> FALSE, reg |-> "none", auth |-> "-", tok |-> "-"]
+NoAS == [cls |-> NoURL, path |-> FALSE]
+NoASM == [mode |-> "-", ip |-> FALSE, cimd |-> FALSE, reg |-> NoURL, auth |-> NoURL, tok |-> NoURL]
 NoRes == [state |-> "-", iss |-> "-"]
 
 Init == /\ pc = "setup" /\ ch = "-" /\ mcp = "-" /\ plist = <<>> /\ idx = 0 /\ srv = NoAS /\ asm = NoASM
@@ -229,25 +289,25 @@ ParseChallenge ==
   /\ pc = "parse"
   /\ CASE ch = "malformed" -> Fail("parse") /\ UNCHANGED <<plist, idx>>
        [] ch = "other403" -> pc' = "done" /\ result' = "nil403" /\ UNCHANGED <<plist, idx, failed>>
-       [] OTHER -> /\ plist' = (IF ChHdr(ch) # "none" THEN <<"hdr">> ELSE <<>>) \o <<"path", "root">>
+       [] OTHER -> /\ plist' = (IF ChHdr(ch) # NoURL THEN <<"hdr">> ELSE <<>>) \o <<"path", "root">>
                    /\ idx' = 1 /\ pc' = "prm" /\ UNCHANGED <<result, failed>>
   /\ UNCHANGED <<ch, mcp, srv, asm, client, pre, ares, tokq, ts, requested, used, exchanged, credsTo>> /\ UNCHANGED Aux
 
 \* getProtectedResourceMetadata: one candidate location; any error moves on to the next candidate
 FetchPRM(loc, o) ==
   /\ pc = "prm" /\ idx <= Len(plist) /\ plist[idx] = loc
-  /\ LET cls == IF loc = "hdr" THEN ChHdr(ch) ELSE mcp
+  /\ LET cls == IF loc = "hdr" THEN ChHdr(ch) ELSE McpCls(mcp)
          next == /\ idx' = idx + 1
                  /\ UNCHANGED <<pc, ch, mcp, srv, used, result, failed>>
-     IN IF ~Safe(cls)                                   \* checkHTTPSOrLoopback(metadataURL): no request
+     IN IF ~CodeHttpsOrLo(cls)                          \* checkHTTPSOrLoopback(metadataURL) fails: no request
         THEN o = "skip" /\ next /\ UNCHANGED requested
         ELSE /\ o \in PRMOutcomes
              /\ requested' = requested \cup {[kind |-> "prm", cls |-> cls]}
              /\ IF o \in PRMHttpFail THEN next
                 ELSE LET f == PRMFacts(o) IN
                   IF \/ f.res # "exact"                                              \* prm.Resource != resourceURL
-                     \/ \E i \in DOMAIN f.as : Script(f.as[i]) \/ ~Safe(f.as[i])      \* checkURLScheme, checkHTTPSOrLoopback
-                     \/ Script(f.other)                                               \* checkURLScheme on the four other URL fields
+                     \/ \E i \in DOMAIN f.as : ~CodeSchemeOK(f.as[i]) \/ ~CodeHttpsOrLo(f.as[i])   \* checkURLScheme, checkHTTPSOrLoopback
+                     \/ ~CodeSchemeOK(f.other)                                        \* checkURLScheme on the four other URL fields
                   THEN next
                   ELSE IF Len(f.as) = 0
                   THEN Fail("no_as") /\ UNCHANGED <<idx, ch, mcp, srv, used>>
@@ -260,7 +320,7 @@ FetchPRM(loc, o) ==
 \* 2025-03-26 fallback: the root of the MCP server is the authorization server
 FallbackRootAS ==
   /\ pc = "prm" /\ idx > Len(plist)
-  /\ srv' = [cls |-> mcp, path |-> FALSE]
+  /\ srv' = [cls |-> McpCls(mcp), path |-> FALSE]
   /\ pc' = "asm" /\ idx' = 1 /\ ch' = "-" /\ mcp' = "-"
   /\ UNCHANGED <<plist, asm, client, pre, ares, tokq, result, ts, requested, used, exchanged, credsTo, failed>> /\ UNCHANGED Aux
 
@@ -279,7 +339,7 @@ FetchASM(loc, o, ip, cimd, rg) ==
                        /\ UNCHANGED <<idx, asm, used>>
                   ELSE Fail("asm") /\ UNCHANGED <<idx, asm, used, cause>>
      IN
-     IF ~Safe(srv.cls)
+     IF ~CodeHttpsOrLo(srv.cls)                                  \* checkHTTPSOrLoopback(metadataURL) fails: no request
      THEN /\ o = "skip" /\ ip = FALSE /\ cimd = FALSE /\ rg = "ep"
           /\ Fail("asm") /\ UNCHANGED <<idx, asm, used, requested, cause, served>>
      ELSE /\ o \in ASMOutcomes
@@ -294,8 +354,8 @@ FetchASM(loc, o, ip, cimd, rg) ==
                /\ served' = served \cup {d}
                /\ IF \/ ~CodeIssMatch(f.iss)                                \* authutil.IssuersEqual
                      \/ ~f.pkce                                              \* len(CodeChallengeMethodsSupported) == 0
-                     \/ ASMScript(f)                                         \* checkURLScheme on nine fields
-                     \/ \E c \in {f.auth, f.tok, f.reg, f.intro} : c # "none" /\ ~Safe(c)   \* checkHTTPSOrLoopback on four
+                     \/ \E k \in ASMSchemeChecked : ~CodeSchemeOK(f[k])                        \* checkURLScheme on nine fields
+                     \/ \E c \in {f.auth, f.tok, f.reg, f.intro} : ~CodeHttpsOrLo(c)           \* checkHTTPSOrLoopback on four
                   THEN fatal
                   ELSE /\ asm' = [mode |-> "doc", ip |-> f.ip, cimd |-> f.cimd, reg |-> f.reg, auth |-> f.auth, tok |-> f.tok]
                        /\ used' = used \cup {d}
@@ -326,7 +386,7 @@ EffPre(p) == IF p = "hostonly" THEN (IF srv.path THEN "prefix" ELSE "exact") ELS
 Register(rc, p, o) ==
   /\ pc = "reg" /\ rc \in RegConfigs
   /\ IF HasPre(rc) THEN p \in PreRels ELSE p = "na"
-  /\ srv' = NoAS /\ asm' = [asm EXCEPT !.cimd = FALSE, !.reg = "none"]
+  /\ srv' = NoAS /\ asm' = [asm EXCEPT !.cimd = FALSE, !.reg = NoURL]
   /\ IF HasCimd(rc) /\ asm.cimd
      THEN /\ o = "skip" /\ client' = "cimd" /\ pre' = "-" /\ pc' = "code"
           /\ UNCHANGED <<requested, result, failed>>
@@ -336,7 +396,7 @@ Register(rc, p, o) ==
              THEN client' = "prereg" /\ pre' = EffPre(p) /\ pc' = "code" /\ UNCHANGED <<result, failed>>
              ELSE Fail("prereg") /\ UNCHANGED <<client, pre>>
           /\ UNCHANGED requested
-     ELSE IF HasDcr(rc) /\ asm.reg # "none"
+     ELSE IF HasDcr(rc) /\ asm.reg # NoURL
      THEN /\ o \in DCROutcomes
           /\ requested' = requested \cup {[kind |-> "reg", cls |-> asm.reg]}
           /\ IF o \in {"201", "200"} THEN client' = "dcr" /\ pre' = "-" /\ pc' = "code" /\ UNCHANGED <<result, failed>>
@@ -352,7 +412,7 @@ GetCode(st, iss) ==
      THEN iss = "-" /\ Fail("fetcher") /\ UNCHANGED ares
      ELSE /\ st \in AuthStates /\ iss \in AuthIsses
           /\ ares' = [state |-> st, iss |-> iss] /\ pc' = "checkstate" /\ UNCHANGED <<result, failed>>
-  /\ asm' = [asm EXCEPT !.auth = "-"]
+  /\ asm' = [asm EXCEPT !.auth = NoURL]
   /\ UNCHANGED <<ch, mcp, plist, idx, srv, client, pre, tokq, ts, requested, used, exchanged>> /\ UNCHANGED Aux
 
 CheckState ==
